@@ -14,9 +14,15 @@ from concurrent.futures import ProcessPoolExecutor
 from . import build
 
 VERIF = build.VERIF
-EVID = os.path.join(VERIF, 'evidence')
-REPLAYS = os.path.join(VERIF, 'replays')
-LOGS = os.path.join(VERIF, 'logs')
+if build.REPO == '/repo':
+    EVID = os.path.join(VERIF, 'evidence')
+    REPLAYS = os.path.join(VERIF, 'replays')
+    LOGS = os.path.join(VERIF, 'logs')
+else:   # mutant trials against a scratch worktree never touch /verif's evidence
+    _alt = os.path.dirname(build.TARGET)
+    EVID = os.path.join(_alt, 'evidence')
+    REPLAYS = os.path.join(_alt, 'replays')
+    LOGS = os.path.join(_alt, 'logs')
 
 WILD = None  # wildcard in expected token lists
 
